@@ -14,6 +14,7 @@
 -/
 import MdProofs.Lemmas.JsonParse
 import MdProofs.Lemmas.JsonSchema
+import MdProofs.Lemmas.JsonConsistent
 namespace MdModel.Json
 open MdModel
 
@@ -179,6 +180,187 @@ theorem crashing_thread_members (s : StateModel) (j : Json) (h : printJson s = .
   · simp [Json.get, getKV_insertKV]
   · intro k hk1 hk2
     simp [Json.get, getKV_insertKV, hk1, hk2]
+
+/-! ## 2b. the redundancies, recomputed from the document alone
+
+  `Consistent` (MdModel/Json.lean §8b) is a predicate on a JSON document: it recomputes
+  `thread_count`, every `frame_count`, every `frame`, every `missing_symbols`, `num_records` and
+  the `crashing_thread` copy from the rest of the document. The engine evaluates it on the REAL
+  bytes of `print_json` (protocol field `R:`); this theorem says the model's report satisfies it
+  for every state on which `print_json` returns. -/
+
+/-- **consistent** — "Its redundant fields agree: thread_count and frame_count equal the array
+    lengths, frame numbers are their positions, the crashing-thread copy is the indexed thread
+    plus its registers" (plus `missing_symbols` ⇔ `function` is null, `num_records` = number of
+    `records`, `threads_index` = `crash_info.crashing_thread`), as ONE decidable predicate of
+    the report. No hypothesis on the state. -/
+theorem consistent (s : StateModel) (j : Json) (h : printJson s = .ok j) : Consistent j = true := by
+  obtain ⟨ms, ts, us, _, hts, _, hj⟩ := printJson_ok s j h
+  obtain ⟨hlen, hth⟩ := omapM_ok _ _ _ hts
+  have hthreads : j.get "threads" = some (.arr ts) := by
+    rw [addCrashing_get s ts _ j hj "threads" (by decide)]; simp [baseFields, lookupLast]
+  have hcount : j.get "thread_count" = some (.nat s.threads.length) := by
+    rw [addCrashing_get s ts _ j hj "thread_count" (by decide)]; simp [baseFields, lookupLast]
+  have hci : j.get "crash_info" = some (crashInfoJson s.sys.cpu.pw s) := by
+    rw [addCrashing_get s ts _ j hj "crash_info" (by decide)]; simp [baseFields, lookupLast]
+  have hmac : j.get "mac_crash_info" = some (optJ (fun rs : List MacRecord =>
+      mkObj [("num_records", .nat rs.length), ("records", .arr (rs.map (macRecordJson s.sys.cpu.pw)))])
+      s.macCrashInfo) := by
+    rw [addCrashing_get s ts _ j hj "mac_crash_info" (by decide)]; simp [baseFields, lookupLast]
+  have hall : ts.all threadConsistent = true := by
+    rw [List.all_eq_true]
+    intro tj htj
+    obtain ⟨k, hk, hkx⟩ := List.getElem_of_mem htj
+    have hk' : k < s.threads.length := by omega
+    obtain ⟨tj', h1, h2⟩ := hth k s.threads[k] (by simp [hk'])
+    have : ts[k]? = some tj := by simp [hk, hkx]
+    rw [this] at h1; cases h1
+    exact threadJson_consistent _ _ _ h2
+  have hcrash : crashingConsistent j ts = true := by
+    cases hreq : s.requestingThread with
+    | none =>
+      have := (crashing_thread_copy s j h).2 (Or.inl hreq)
+      simp [crashingConsistent, this]
+    | some i =>
+      cases hti : s.threads[i]? with
+      | none =>
+        -- out of range: `print_json` panics, so there is no report
+        simp only [addCrashing, hreq, hti] at hj
+        cases hj
+      | some t =>
+        cases hfr : t.frames with
+        | nil =>
+          have := (crashing_thread_copy s j h).2 (Or.inr ⟨i, t, hreq, hti, hfr⟩)
+          simp [crashingConsistent, this]
+        | cons f0 rest =>
+          obtain ⟨ts', kvs, fj0, fjs, e1, e2, e3, e4⟩ := (crashing_thread_copy s j h).1 i t f0 rest hreq hti hfr
+          rw [hthreads] at e1
+          cases e1
+          have hidx : (crashInfoJson s.sys.cpu.pw s).get "crashing_thread" = some (.nat i) := by
+            simp [crashInfoJson, get_mkObj, lookupLast, hreq, optNat, optJ]
+          have hbind : ((j.get "crash_info").bind (Json.get "crashing_thread")) = some (.nat i) := by
+            rw [hci]; exact hidx
+          have hcopy := copyOf_crashingCopy kvs fj0 fjs (registersJson f0.ctx) i e3
+          unfold crashingConsistent
+          rw [e4, hbind]
+          simp only [Json.get, getKV_insertKV, if_true, Json.nat, JNum.ofNat, e2] at hcopy ⊢
+          rw [hcopy]
+          simp [optBeq, Json.beq]
+  have hmacc : macConsistent j = true := by
+    simp only [macConsistent, hmac]
+    cases s.macCrashInfo with
+    | none => rfl
+    | some rs =>
+      simp only [optJ, mkObj, getKV_lits]
+      simp [lookupLast]
+  simp only [Consistent, hthreads, hcount, hall, hcrash, hmacc, Bool.and_true]
+  exact isNatJ_of_eq _ _ _ rfl hlen.symm
+
+/-! ## 2c. "enumerations": the strings the model can emit are exactly the listed ones
+
+  `…Documented` are the lists of json-schema.md verbatim, `…Undocumented` the extra values of
+  `FrameTrust::as_str` / `Cpu` Display (MdModel/Json.lean §8). Both directions: nothing outside
+  the lists is ever emitted, and no listed string is dead. -/
+
+/-- **enumerations_exact** — `trust`, `cpu_arch`, `crash_inconsistencies[]`,
+    `memory_accesses[].access_type`, `adjusted_address.kind` and (for known platforms)
+    `system_info.os` range over exactly the listed strings. -/
+theorem enumerations_exact :
+    (∀ t : Trust, t.name ∈ trustDocumented ++ trustUndocumented) ∧
+    (∀ v ∈ trustDocumented ++ trustUndocumented, ∃ t : Trust, t.name = v) ∧
+    (∀ c : Cpu, c.name ∈ cpuDocumented ++ cpuUndocumented) ∧
+    (∀ v ∈ cpuDocumented ++ cpuUndocumented, ∃ c : Cpu, c.name = v) ∧
+    (∀ i : Inconsistency, i.name ∈ inconsistencyDocumented) ∧
+    (∀ v ∈ inconsistencyDocumented, ∃ i : Inconsistency, i.name = v) ∧
+    (∀ a : AccessType, a ≠ .underivable → a.lower ∈ accessTypeDocumented) ∧
+    (∀ v ∈ accessTypeDocumented, ∃ a : AccessType, a ≠ .underivable ∧ a.lower = v) ∧
+    (∀ o : Os, (∀ n, o ≠ .unknown n) → o.longName ∈ osDocumented) ∧
+    (∀ v ∈ osDocumented, ∃ o : Os, o.longName = v) ∧
+    (∀ pw (a : Adjusted), ∃ k, (adjustedJson pw a).get "kind" = some (.str k) ∧ k ∈ adjustedKindDocumented) := by
+  refine ⟨?_, ?_, ?_, ?_, ?_, ?_, ?_, ?_, ?_, ?_, ?_⟩
+  · intro t; cases t <;> simp [Trust.name, trustDocumented, trustUndocumented]
+  · intro v hv
+    simp only [trustDocumented, trustUndocumented, List.cons_append, List.nil_append, List.mem_cons,
+      List.not_mem_nil, or_false] at hv
+    rcases hv with rfl | rfl | rfl | rfl | rfl | rfl | rfl
+    all_goals first
+      | exact ⟨.context, rfl⟩
+      | exact ⟨.cfi, rfl⟩
+      | exact ⟨.framePointer, rfl⟩
+      | exact ⟨.scan, rfl⟩
+      | exact ⟨.cfiScan, rfl⟩
+      | exact ⟨.preWalked, rfl⟩
+      | exact ⟨.none, rfl⟩
+  · intro c; cases c <;> simp [Cpu.name, cpuDocumented, cpuUndocumented]
+  · intro v hv
+    simp only [cpuDocumented, cpuUndocumented, List.cons_append, List.nil_append, List.mem_cons,
+      List.not_mem_nil, or_false] at hv
+    rcases hv with rfl | rfl | rfl | rfl | rfl | rfl | rfl | rfl | rfl | rfl
+    all_goals first
+      | exact ⟨.x86, rfl⟩
+      | exact ⟨.amd64, rfl⟩
+      | exact ⟨.ppc, rfl⟩
+      | exact ⟨.ppc64, rfl⟩
+      | exact ⟨.sparc, rfl⟩
+      | exact ⟨.arm, rfl⟩
+      | exact ⟨.arm64, rfl⟩
+      | exact ⟨.unknown, rfl⟩
+      | exact ⟨.mips, rfl⟩
+      | exact ⟨.mips64, rfl⟩
+  · intro i; cases i <;> simp [Inconsistency.name, inconsistencyDocumented]
+  · intro v hv
+    simp only [inconsistencyDocumented, List.mem_cons, List.not_mem_nil, or_false] at hv
+    rcases hv with rfl | rfl | rfl | rfl | rfl
+    all_goals first
+      | exact ⟨.intDivByZeroNotPossible, rfl⟩
+      | exact ⟨.privInstructionCrashWithoutPrivInstruction, rfl⟩
+      | exact ⟨.nonCanonicalAddressFalselyReported, rfl⟩
+      | exact ⟨.accessViolationWhenAccessAllowed, rfl⟩
+      | exact ⟨.crashingAccessNotFoundInMemoryAccesses, rfl⟩
+  · intro a ha; cases a <;> simp_all [AccessType.lower, accessTypeDocumented]
+  · intro v hv
+    simp only [accessTypeDocumented, List.mem_cons, List.not_mem_nil, or_false] at hv
+    rcases hv with rfl | rfl | rfl
+    all_goals first
+      | exact ⟨.read, by decide, rfl⟩
+      | exact ⟨.write, by decide, rfl⟩
+      | exact ⟨.readWrite, by decide, rfl⟩
+  · intro o ho
+    cases o with
+    | unknown n => exact absurd rfl (ho n)
+    | _ => simp [Os.longName, osDocumented]
+  · intro v hv
+    simp only [osDocumented, List.mem_cons, List.not_mem_nil, or_false] at hv
+    rcases hv with rfl | rfl | rfl | rfl | rfl | rfl | rfl | rfl
+    all_goals first
+      | exact ⟨.windows, rfl⟩
+      | exact ⟨.macos, rfl⟩
+      | exact ⟨.ios, rfl⟩
+      | exact ⟨.linux, rfl⟩
+      | exact ⟨.solaris, rfl⟩
+      | exact ⟨.android, rfl⟩
+      | exact ⟨.ps3, rfl⟩
+      | exact ⟨.nacl, rfl⟩
+  · intro pw a
+    cases a with
+    | nonCanonical v => exact ⟨"non-canonical", by simp [adjustedJson, get_mkObj, lookupLast], by simp [adjustedKindDocumented]⟩
+    | nullOffset v => exact ⟨"null-pointer", by simp [adjustedJson, get_mkObj, lookupLast], by simp [adjustedKindDocumented]⟩
+
+/-- **memory_accesses_shape** — `crash_info.memory_accesses[k]` of every state (no hypothesis):
+    `address` is the access address as a platform-width hex string, `size` the size or `null`,
+    `is_likely_guard_page` is present only as `true`, and `access_type` is absent exactly for an
+    underivable access and otherwise one of "read" | "write" | "readwrite". -/
+theorem memory_accesses_shape (pw : PW) (a : MemAccess) :
+    (memAccessJson pw a).get "address" = some (.str (hexAddr pw a.address)) ∧
+    (memAccessJson pw a).get "size" = some (optNat a.size) ∧
+    (memAccessJson pw a).get "is_likely_guard_page" = (if a.guard then some (.bool true) else none) ∧
+    (memAccessJson pw a).get "access_type" =
+      (match a.ty with
+       | .read => some (.str "read") | .write => some (.str "write")
+       | .readWrite => some (.str "readwrite") | .underivable => none) := by
+  unfold memAccessJson
+  cases hg : a.guard <;> cases ht : a.ty <;>
+    simp [get_mkObj, lookupLast, AccessType.lower]
 
 /-! ## 3. well-formedness of a state
 
@@ -556,24 +738,18 @@ theorem widthOf_report (s : StateModel) (j : Json)
 /-- all members of the `json!` literal have their documented types -/
 theorem check_base (s : StateModel) (ms ts us : List Json) (extra : List (String × Json))
     (wf : WF s) (ty : Typed s) (doc : Documented s)
-    (hms : ∀ x ∈ ms, ∀ q, check s.sys.cpu.pw.digits (.obj [
-      ("base_addr", .hexA), ("end_addr", .hexA), ("debug_file", .str), ("debug_id", .str),
-      ("filename", .str), ("code_id", .str), ("version", .str), ("cert_subject", .str),
-      ("missing_symbols", .bool), ("loaded_symbols", .bool), ("corrupt_symbols", .bool),
-      ("symbol_url", .str)]) x q = none)
+    (hms : ∀ x ∈ ms, ∀ q, check s.sys.cpu.pw.digits (.obj moduleFields) x q = none)
     (hts : ∀ x ∈ ts, ∀ q, check s.sys.cpu.pw.digits (.obj threadFields) x q = none)
-    (hus : ∀ x ∈ us, ∀ q, check s.sys.cpu.pw.digits (.obj [
-      ("base_addr", .hexA), ("end_addr", .hexA), ("code_id", .str), ("filename", .str),
-      ("cert_subject", .str)]) x q = none)
+    (hus : ∀ x ∈ us, ∀ q, check s.sys.cpu.pw.digits (.obj unloadedFields) x q = none)
     (hextra : ∀ q, check s.sys.cpu.pw.digits (.obj (("threads_index", .u32) :: threadFields))
       (match lookupLast "crashing_thread" extra with | some c => c | none => .null) q = none)
     (hextra' : ∀ k, k ≠ "crashing_thread" → lookupLast k extra = none) :
     check s.sys.cpu.pw.digits schema (mkObj (baseFields s.sys.cpu.pw s ms ts us ++ extra)) "$" = none := by
   have hreq : ∀ n, s.requestingThread = some n → n ≤ U32MAX := fun n hn => by
     have := wf.req n hn; have := ty.nthreads; omega
-  have hlsb : ∀ q, check s.sys.cpu.pw.digits (.obj [("id", .str), ("release", .str), ("codename", .str),
-      ("description", .str)]) (optJ (fun l : Lsb => mkObj [("id", .str l.id), ("release", .str l.release),
-        ("codename", .str l.codename), ("description", .str l.description)]) s.lsb) q = none := by
+  have hlsb : ∀ q, check s.sys.cpu.pw.digits (.obj lsbFields) (optJ (fun l : Lsb => mkObj [("id", .str l.id),
+      ("release", .str l.release), ("codename", .str l.codename), ("description", .str l.description)]) s.lsb) q
+      = none := by
     intro q; cases s.lsb with
     | none => exact check_null _ _ _
     | some l => exact check_lsb _ l q
@@ -586,11 +762,7 @@ theorem check_base (s : StateModel) (ms ts us : List Json) (extra : List (String
       apply check_arr
       intro x hx q'
       rcases hxs x hx with h | ⟨kvs, h⟩ <;> subst h <;> simp [check, checkFields]
-  have hmac : ∀ q, check s.sys.cpu.pw.digits (.obj [
-      ("num_records", .u32),
-      ("records", .arr (.obj [("thread", .hexA), ("dialog_mode", .hexA), ("abort_cause", .hexA),
-          ("module", .str), ("message", .str), ("signature_string", .str), ("backtrace", .str),
-          ("message2", .str)]))])
+  have hmac : ∀ q, check s.sys.cpu.pw.digits (.obj macFields)
       (optJ (fun rs : List MacRecord => mkObj [("num_records", .nat rs.length),
         ("records", .arr (rs.map (macRecordJson s.sys.cpu.pw)))]) s.macCrashInfo) q = none := by
     intro q
@@ -598,20 +770,19 @@ theorem check_base (s : StateModel) (ms ts us : List Json) (extra : List (String
     | none => exact check_null _ _ _
     | some rs =>
       obtain ⟨hn, hr⟩ := ty.mac rs hm
-      have hrec := fun q' => check_arr s.sys.cpu.pw.digits (.obj [("thread", .hexA), ("dialog_mode", .hexA),
-          ("abort_cause", .hexA), ("module", .str), ("message", .str), ("signature_string", .str),
-          ("backtrace", .str), ("message2", .str)]) (rs.map (macRecordJson s.sys.cpu.pw)) q'
+      have hrec := fun q' => check_arr s.sys.cpu.pw.digits (.obj macRecordFields)
+          (rs.map (macRecordJson s.sys.cpu.pw)) q'
         (by
           intro x hx q''
           obtain ⟨r, hrm, rfl⟩ := List.mem_map.mp hx
           exact check_macRecord _ r q'' (hr r hrm).1 (hr r hrm).2.1 (hr r hrm).2.2)
-      simp [optJ_some, checkFields_mkObj, checkFields, getKV_insertKV, getKV, check_u32 _ _ _ hn, hrec]
+      simp [macFields, optJ_some, checkFields_mkObj, checkFields, getKV_insertKV, getKV, check_u32 _ _ _ hn, hrec]
   have hboot : ∀ q, check s.sys.cpu.pw.digits .str (optJ optStr s.macBootArgs) q = none := by
     intro q; cases s.macBootArgs with
     | none => exact check_null _ _ _
     | some o => exact check_optStr _ o q
-  have hhandles : ∀ q, check s.sys.cpu.pw.digits (.arr (.obj [("handle", .u64), ("type_name", .str),
-      ("object_name", .str)])) (optJ (fun hs : List HandleM => .arr (hs.map handleJson)) s.handles) q = none := by
+  have hhandles : ∀ q, check s.sys.cpu.pw.digits (.arr (.obj handleFields))
+      (optJ (fun hs : List HandleM => .arr (hs.map handleJson)) s.handles) q = none := by
     intro q
     cases hh : s.handles with
     | none => exact check_null _ _ _
@@ -739,7 +910,10 @@ def exFrame : FrameM :=
     trust := .context, ctx := ⟨4, [("eip", 0x401234), ("esp", 0xff00)], some ["eip"]⟩ }
 
 def exState : StateModel :=
-  { pid := some 42, certInfo := [], exc := some ⟨"SIGSEGV", 0x10, some (.nullOffset 0x10), none, none, none, [], []⟩,
+  { pid := some 42, certInfo := [], exc := some ⟨"SIGSEGV", 0x10, some (.nullOffset 0x10), some "add dword [rbx], eax",
+      some [⟨0x10, some 4, true, .readWrite⟩, ⟨0xff00, none, false, .underivable⟩], some (.update 0x401000 false),
+      [⟨0x10, some "rbx", false, false, false, 2, true, some ⟨false, 0, [2, 5], none⟩⟩],
+      [.crashingAccessNotFoundInMemoryAccesses]⟩,
     assertion := none, requestingThread := some 0,
     threads := [⟨[exFrame], 7, some "t", none⟩, ⟨[], 8, none, none⟩],
     sys := ⟨.linux, some "5.4", none, .x86, none, 4, some 0x1f⟩, lsb := none, procLimits := none,
@@ -773,7 +947,7 @@ example : Typed exState := by
     · simp at hf
   · intro e he
     simp [exState] at he; subst he
-    constructor <;> simp [U64MAX]
+    constructor <;> simp [U64MAX, U32MAX]
   · simp [exState]
   · simp [exState, U64MAX]
 
@@ -783,6 +957,21 @@ example : Documented exState := by
   · intro j hj
     simp [exState] at hj; subst hj
     exact ⟨_, rfl, by simp⟩
+
+/-- the hypothesis of `consistent` is inhabited: the example state has a report -/
+example : ∃ j, printJson exState = .ok j ∧ Consistent j = true := by
+  obtain ⟨j, hj⟩ := printJson_total exState (by constructor <;> simp [exState, exFrame, U64MAX])
+  exact ⟨j, hj, consistent exState j hj⟩
+
+/-- `Consistent` is not trivially true: a document whose `thread_count` disagrees with `threads` -/
+example : Consistent (.obj [("thread_count", .nat 1), ("threads", .arr [])]) = false := by
+  simp [Consistent, Json.get, getKV, isNatJ, JNum.ofNat]
+
+/-- `Conforms` rejects an `access_type` outside the documented enumeration (the seeded C15-2a
+    regression prints "read/write") -/
+example : check 16 (.obj memAccessFields) (.obj [("access_type", .str "read/write")]) "$" =
+    some "$.access_type" := by
+  simp [memAccessFields, check, checkFields, getKV, accessTy, accessTypeDocumented]
 
 /-- a state outside `WF` on which the model (like the code) panics: instruction below the module base -/
 example : printJson { exState with threads := [⟨[{ exFrame with instruction := 0x3fffff }], 7, none, none⟩] } =
